@@ -195,6 +195,30 @@ def _trace_chunk(args):
     return out
 
 
+APA_INV = 'Inv'
+
+
+def unbounded_part(tier, ev):
+    """For three warning types Apalache (SMT) proves - for ALL natural counts, ALL integer limits and blanket allowances and
+    every iteration order - that the loop equals the sentence, that the result is never negative, zero exactly when every
+    warning is covered, and never below the number of records above warning level (spec/WarnCountApa.tla); TLC ties that
+    module to WarnCountOps (used by everything else here) on a small domain (spec/WarnCountBridge.tla)."""
+    from . import apalache
+    r = apalache.check_init_invariant('WarnCountApa', APA_INV)
+    if not r['ok']:
+        raise tlc.MachineryError('WarnCountApa: Apalache refutes conjunct %s of %s' % (r['violated_conjunct'], APA_INV))
+    work = tlc.scratch('c08b_')
+    apalache.standard_module(work)
+    quick = tier == 'quick'
+    res = tlc.run('WarnCountBridge', 'SPECIFICATION Spec\nINVARIANT SameDecl\nINVARIANT SameOp\nINVARIANT SameCovered\n',
+                  consts={'MaxCount': '2', 'Limits': '{-1, 1}' if quick else '{-1, 0, 2}', 'Blankets': '{-1, 0, 1, 3}'},
+                  workdir=work, timeout=1500)
+    if res.violated:
+        raise tlc.MachineryError('WarnCountBridge: WarnCountApa and WarnCountOps disagree (%s)' % res.violated)
+    ev.add_tlc('MC WarnCountBridge (WarnCountApa = WarnCountOps)', res)
+    ev.extra['apalache'] = dict(r, note='initial-state invariant, unbounded integers, three warning types')
+
+
 def run(tier, seed, ev, vd):
     consts = CONSTS[tier]
     ev.rule = ('MC: every reachable (counts, above, allowances) state of WarnCount; traces: random multisets over <=6 '
@@ -204,6 +228,7 @@ def run(tier, seed, ev, vd):
     ev.assumptions = ['TLC 1.8 evaluates the TLA+ operators correctly',
                       'a type both waived by name and given a numeric limit is not generated (unspecified)',
                       'harness renders allowance entries to -maxwarn strings and groups them at random']
+    unbounded_part(tier, ev)
     res = tlc.run('WarnCount', CFG, consts=consts, dump=True, coverage=True, timeout=1500)
     if res.violated:
         # the design itself is broken: a machinery/spec problem, not a finding about the code
@@ -271,6 +296,14 @@ def replay(scenario):
 
 
 def selftest(seed):
+    # the symbolic part is bound too: a mutant of WarnCountApa (negative limits no longer clamped in the loop) must be refuted
+    from . import apalache
+    src = open(os.path.join(tlc.SPEC_DIR, 'WarnCountApa.tla')).read()
+    mut = src.replace('<<total - Max2(0, Min2(cnt[t], Lim(t))), bl>>', '<<total - Min2(cnt[t], lim[t]), bl>>')
+    assert mut != src
+    r = apalache.check_init_invariant('WarnCountApa', APA_INV, text=mut)
+    assert not r['ok'], 'Apalache accepted the mutated loop'
+    print('selftest C08: Apalache refutes the mutated loop (conjunct %s of %s)' % (r['violated_conjunct'], APA_INV))
     """Binding demonstration: a corrupted recorded result must be rejected by the trace spec."""
     batch = _trace_chunk((20, seed))
     batch[7]['result'] += 1
